@@ -131,7 +131,8 @@ fn base_pool_srcs() -> Vec<String> {
         v.push(s(x));
     }
     // complex
-    for x in ["(1+0i)", "(1+1i)", "(1+2i)", "1i", "(2.5+0i)", "(0.5+0i)", "((0.0/0.0)+1i)", "(1+(0.0/0.0)*1i)", "(2+1i)", "(1-1i)", "(7+0i)", "(9223372036854775808.0+0i)", "(0-9223372036854775808.0+0i)"] {
+    for x in ["(1+0i)", "(1+1i)", "(1+2i)", "1i", "(2.5+0i)", "(0.5+0i)", "((0.0/0.0)+1i)", "(1+(0.0/0.0)*1i)", "(2+1i)", "(1-1i)", "(7+0i)", "(9223372036854775808.0+0i)", "(0-9223372036854775808.0+0i)",
+        "(-(1+0i))", "(-(0.0+0i))", "(-(0.5+0i))", "(0-(1+0i))", "(-(1+1i))"] {
         v.push(s(x));
     }
     // other kinds
@@ -565,6 +566,93 @@ fn main() {
             rust: out.class(),
             nontrivial: true,
         });
+    }
+
+    // ---- incomparable pairs HIDDEN behind an equal prefix: nested lists / vectors / complex numbers in
+    // which two elements are incomparable only after an equal first component, the others compare
+    // with both; every 3-element and 4-element selection in every order, sampled 5-element ones.
+    // `sort`, `sort_on`, `sort` with a comparator must raise iff SOME pair is incomparable (the
+    // property: incomparable values raise, never an arbitrary answer); `min`/`max` compare each element
+    // with the running result only (the model mirrors that loop).
+    {
+        let groups: Vec<Vec<&str>> = vec![
+            vec!["[1, \"a\"]", "[1, 5]", "[2, 3]", "[0, 1]", "[1, 5.0]", "[2, \"b\"]"],
+            vec!["[1, 0.0/0.0]", "[1, 0]", "[2, 0]", "[0, 0]", "[1, 0.0/0.0]", "[1]"],
+            vec!["V(1, 0.0/0.0)", "V(1, 0)", "V(2, 0)", "V(0, 7)", "V(1)", "V(1, 1/2)"],
+            vec!["[1, [2, \"a\"]]", "[1, [2, 3]]", "[1, [3]]", "[2]", "[1, [2, null]]", "[0, [\"z\"]]"],
+            vec!["(1+(0.0/0.0)*1i)", "((0.0/0.0)+1i)", "(1+0i)", "(2+1i)", "1", "0.5"],
+            vec!["[[1, 2], \"a\"]", "[[1, 2.0], 5]", "[[1, 3], 0]", "[[0], 9]", "[[1, 2], \"b\"]", "[[1, 2]]"],
+            vec!["[\"k\", 1]", "[\"k\", \"x\"]", "[\"j\", 0]", "[\"l\", null]", "[\"k\", 2.5]", "[\"k\"]"],
+        ];
+        let ops: [(&str, &str, &str); 9] = [
+            ("sort", "sort({L})", "sort {C}"),
+            ("sort_on-id", "sort_on({L}, \\x -> x)", "sorton id {C}"),
+            ("sort_on-pair0", "sort_on({L}, \\x -> [x, 0])", "sorton pair0 {C}"),
+            ("sort-cmp", "sort({L}, \\a, b -> a <=> b)", "sortby cmp {C}"),
+            ("sort-rcmp", "sort({L}, \\a, b -> b <=> a)", "sortby rcmp {C}"),
+            ("sort-half", "sort({L}, \\a, b -> (a <=> b) / 2)", "sortby half {C}"),
+            ("max", "max({L})", "ext max {C}"),
+            ("min", "min({L})", "ext min {C}"),
+            ("sort_on-const0", "sort_on({L}, \\x -> 0)", "sorton const0 {C}"),
+        ];
+        fn perms(items: &[usize]) -> Vec<Vec<usize>> {
+            if items.len() <= 1 {
+                return vec![items.to_vec()];
+            }
+            let mut out = vec![];
+            for i in 0..items.len() {
+                let mut rest = items.to_vec();
+                let x = rest.remove(i);
+                for mut p in perms(&rest) {
+                    p.insert(0, x);
+                    out.push(p);
+                }
+            }
+            out
+        }
+        let mut hidden = 0u64;
+        for (gi, g) in groups.iter().enumerate() {
+            let elems: Vec<(String, String)> = g
+                .iter()
+                .filter_map(|src| interp.eval_obj(src).ok().map(|o| (src.to_string(), canon(&o))))
+                .collect();
+            if elems.len() != g.len() {
+                rep.notes.push(format!("hidden-incomparability group {} has elements that do not evaluate", gi));
+            }
+            let n = elems.len();
+            for mask in 1u32..(1 << n) {
+                let sel: Vec<usize> = (0..n).filter(|i| mask & (1 << i) != 0).collect();
+                if sel.len() < 3 || sel.len() > 5 {
+                    continue;
+                }
+                for (pi, p) in perms(&sel).into_iter().enumerate() {
+                    // all orders of 3 and 4 elements; of the 120 orders of 5 elements a sample
+                    if sel.len() == 5 && !(thorough || (pi + mask as usize) % 6 == 0) {
+                        continue;
+                    }
+                    let l_src = format!("[{}]", p.iter().map(|&i| elems[i].0.clone()).collect::<Vec<_>>().join(", "));
+                    let l_can = format!("[{}]", p.iter().map(|&i| elems[i].1.clone()).collect::<Vec<_>>().join(","));
+                    for (oi, (name, tmpl, req)) in ops.iter().enumerate() {
+                        // every order gets sort; the other operations rotate
+                        if oi != 0 && (pi + oi) % 3 != 0 && !thorough {
+                            continue;
+                        }
+                        let src = tmpl.replace("{L}", &l_src);
+                        let out = interp.eval(&src);
+                        cases.push(Case {
+                            key: format!("hidden-{}(g{})", name, gi),
+                            input: src,
+                            request: req.replace("{C}", &l_can),
+                            rust: out.class(),
+                            nontrivial: true,
+                        });
+                        hidden += 1;
+                    }
+                }
+            }
+        }
+        let raised = cases.iter().filter(|c| c.key.starts_with("hidden-") && c.rust == "throw").count();
+        rep.notes.push(format!("hidden-incomparability cases: {} ({} raised)", hidden, raised));
     }
 
     // ---- n-ary min / max
